@@ -8,6 +8,23 @@ ALL = [f"C{i:02d}" for i in range(1, 21)]
 
 # id -> (technique, level text, level note, design ref)
 CHECKS = {
+    "C07": (
+        "exhaustive enumeration of the complete call-template catalogue x dtype x payload pack x every coherent "
+        "change of units (exact dyadic rescalings in a custom registry and ordinary units) on the real code; "
+        "metamorphic oracle F(x) vs F(x re-expressed) leaf by leaf, plus a hand-typed result-class column",
+        "Every template of the C06 catalogue (all functions dispatching through __array_function__ + ndarray "
+        "methods, ~1450 templates) is executed with all inputs of each dimension slot in a baseline unit and again "
+        "for every assignment of alternative units per slot: powers-of-64 units of a custom registry (numbers "
+        "rescaled exactly, so unit-carrying results must denote the same quantity BIT FOR BIT and bare results must "
+        "be identical; LAPACK/FFT/LU/pow-backed templates under 1e-9) and ordinary units (cm, km, mile, hr, lb; "
+        "1e-9). For the hand-typed class of functions whose result has the dimension of an input (selection, "
+        "reshaping, sorting, rounding, interpolation, location/spread statistics) every array leaf of the result "
+        "must be a unyt object of that dimension. in-place/out= targets are compared the same way.",
+        "Templates whose mathematics is not scale-covariant (rounding family, bare parameters read in the array's "
+        "current unit, string/IO producers) are exempt from the covariance oracle only and are listed in the "
+        "evidence. The result-class column is typed by hand from NumPy's documentation.",
+        "DESIGN.md section 6 C07, Appendix A",
+    ),
     "C06": (
         "exhaustive enumeration of a complete catalogue of call templates (every function dispatching through "
         "__array_function__ and the ndarray methods) x dtype x payload pack x unit assignment on the real code, "
